@@ -119,7 +119,10 @@ class _ExecNotify:
     async def __anext__(self):
         self.drv.bus.emit('CMD_EXEC', cmd=self.name, args=self.args,
                           pool=snap_pool(self.schd.pool))
-        return await self.gen.__anext__()
+        try:
+            return await self.gen.__anext__()
+        finally:
+            self.drv.bus.emit('CMD_EXEC_END', cmd=self.name)
 
     def __getattr__(self, k):
         return getattr(self.gen, k)
